@@ -120,6 +120,14 @@ def handle (fs : List String) : String :=
       | some k => showRun v (stepWithFault v k)
       | none => "bad-op"
     | _, _ => "bad-op"
+  | ["tokidx", flow] =>
+    -- the view the token index entry of the secret is written to: namespace 0 = root, 1 = the child namespace;
+    -- `secret`: token and engine in the child namespace; `xsecret`: a root-namespace token, the child's engine
+    let tokenNs := if flow == "xsecret" then 0 else 1
+    match ((({} : TokIdx).create tokenNs 1 7 9).entries.map (·.1)) with
+    | [0] => "root"
+    | [1] => "ns"
+    | _ => "bad-op"
   | ["nsflow", _flow, k] =>
     -- the same flows inside a child namespace, every fault position: the property's predicate only (`good` = a handed-out
     -- secret/token has its lease entry in the namespace's storage; a failed request left nothing live)
